@@ -31,6 +31,12 @@ const (
 	vc13S500       vc13Kind = "s500"
 	vc13Empty      vc13Kind = "empty"
 	vc13Oversize   vc13Kind = "oversize"
+
+	// vc13OversizeChunked and vc13OversizeClose are complete bodies over the
+	// size limit that do not announce their length: chunked transfer coding,
+	// and HTTP/1.0-style delimiting by the end of the connection.
+	vc13OversizeChunked vc13Kind = "oversize_chunked"
+	vc13OversizeClose   vc13Kind = "oversize_close"
 	vc13ShortCL    vc13Kind = "short_cl"
 	vc13ChunkTrunc vc13Kind = "chunk_trunc"
 )
@@ -44,12 +50,19 @@ var vc13FaultKinds = []vc13Kind{
 	vc13S500,
 	vc13Empty,
 	vc13Oversize,
+	vc13OversizeChunked,
+	vc13OversizeClose,
 	vc13ShortCL,
 	vc13ChunkTrunc,
 }
 
 // vc13IsOK reports whether k delivers a complete body with status 200.
 func vc13IsOK(k vc13Kind) (ok bool) { return k == vc13OKNew || k == vc13OKSame }
+
+// vc13IsOversize reports whether k is a complete body over the size limit.
+func vc13IsOversize(k vc13Kind) (ok bool) {
+	return k == vc13Oversize || k == vc13OversizeChunked || k == vc13OversizeClose
+}
 
 // vc13IsHang reports whether k makes the client run into its timeout.
 func vc13IsHang(k vc13Kind) (ok bool) { return k == vc13HangHdr || k == vc13HangBody }
@@ -237,6 +250,32 @@ func (s *vc13Server) ServeHTTP(w http.ResponseWriter, r *http.Request) {
 	switch resp.kind {
 	case vc13OKNew, vc13OKSame, vc13Oversize:
 		s.writeComplete(w, r.URL.Path, p, resp, ord)
+	case vc13OversizeChunked:
+		// No Content-Length and a flush before the end: the server uses the
+		// chunked transfer coding and terminates it properly.
+		w.Header().Set("Content-Type", "text/plain")
+		w.WriteHeader(http.StatusOK)
+		fl, _ := w.(http.Flusher)
+		third := (len(resp.body) + 2) / 3
+		for lo := 0; lo < len(resp.body); lo += third {
+			if _, err := w.Write(resp.body[lo:min(lo+third, len(resp.body))]); err != nil {
+				return
+			}
+
+			if fl != nil {
+				fl.Flush()
+			}
+		}
+	case vc13OversizeClose:
+		if c := vc13Hijack(w); c != nil {
+			_, _ = fmt.Fprintf(c, "HTTP/1.0 200 OK\r\nServer: vc13/1.0\r\nContent-Type: text/plain\r\n"+
+				"Connection: close\r\n\r\n")
+			_, _ = c.Write(resp.body)
+			if tc, ok := c.(*net.TCPConn); ok {
+				_ = tc.CloseWrite()
+			}
+			_ = c.Close()
+		}
 	case vc13S404:
 		w.WriteHeader(http.StatusNotFound)
 		_, _ = w.Write(resp.body)
